@@ -29,7 +29,7 @@ DST_EXEMPT = {
     "fn=ares_cookie_validate copy=memcpy dst=cookie->server": "decided by R-C17-BOUND (length window 8..40 minus the 8-byte client part)",
     "fn=config_lookup store=lookupstr[lookupstr_cnt]": "duplicates are skipped and only 'b' and 'f' are ever stored: count <= 2 < 32",
     "fn=config_lookup store=lookupstr[lookupstr_cnt++]": "duplicates are skipped and only 'b' and 'f' are ever stored: count <= 2 < 32",
-    "fn=ares_dns_name_write store=name_copy[name_len]": "name_len is the ares_strcpy result (< 512) minus the length of a suffix found inside that very string",
+    "fn=ares_dns_name_write store=name_copy[name_len]": "name_len is the ares_strcpy result (< sizeof(name_copy)) minus the length of a suffix found inside that very string",
 }
 
 
